@@ -115,7 +115,8 @@ PLAN["C15"] = {
     "trusted": ["rustc / kani-compiler / CBMC", "Kani's sequential model of std::sync::RwLock"],
     "assumptions": ["entries carry moves built by Move::by_moving with symbolic colour/kind/squares; depth fields < 2^16"],
     "insts": [
-        Inst("c15::history_1x1_n9", crate="engine", sub="C15.a", tiers=("quick",), unwind=12, timeout=3600, mem_gb=12, functions=_c15_fn, bounds="1x1, <= 9 inserts, symbolic keys/entries/query"),
+        Inst("c15::history_1x1_n6", crate="engine", sub="C15.a", tiers=("quick",), unwind=10, timeout=3600, mem_gb=6, functions=_c15_fn, bounds="1x1, <= 6 inserts, symbolic keys/entries/query"),
+        Inst("c15::history_1x1_n9", crate="engine", sub="C15.a", tiers=("thorough",), unwind=12, timeout=3600, mem_gb=12, functions=_c15_fn, bounds="1x1, <= 9 inserts, symbolic keys/entries/query"),
         Inst("c15::history_1x1_n10", crate="engine", sub="C15.a", tiers=("thorough",), unwind=13, timeout=7200, mem_gb=16, functions=_c15_fn, bounds="1x1, <= 10 inserts"),
         Inst("c15::routed_2x2_n1", crate="engine", sub="C15.a", tiers=("thorough",), unwind=10, timeout=3600, mem_gb=24, functions=_c15_fn, bounds="2 tables x 2 buckets, <= 1 insert + lookup"),
         Inst("c15::routed_3x1_n1", crate="engine", sub="C15.a", unwind=10, timeout=3600, mem_gb=20, functions=_c15_fn, bounds="3 tables x 1 bucket (a table count that is not a power of two), <= 1 insert + lookup"),
@@ -197,12 +198,12 @@ PLAN["C01"] = {
     "trusted": ["rustc / kani-compiler / CBMC", "reference rules (harness/common/rules.rs)"],
     "assumptions": ["positions are legal positions (invariant of the property's quantifier)"],
     "insts": [
-        _c01_filter("filter_pieces_white_u2", 2, ("quick", "thorough"), 3600, 4),
-        _c01_filter("filter_pieces_black_u2", 2, ("quick", "thorough"), 3600, 4),
-        _c01_filter("filter_king_white_u2", 2, ("quick", "thorough"), 3600, 4),
-        _c01_filter("filter_king_black_u2", 2, ("quick", "thorough"), 3600, 4),
-        _c01_filter("filter_pawn_white_u2", 2, ("quick", "thorough"), 3600, 4),
-        _c01_filter("filter_pawn_black_u2", 2, ("quick", "thorough"), 3600, 4),
+        _c01_filter("filter_pieces_white_u2", 2, ("quick", "thorough"), 3600, 3),
+        _c01_filter("filter_pieces_black_u2", 2, ("quick", "thorough"), 3600, 3),
+        _c01_filter("filter_king_white_u2", 2, ("quick", "thorough"), 3600, 3),
+        _c01_filter("filter_king_black_u2", 2, ("quick", "thorough"), 3600, 3),
+        _c01_filter("filter_pawn_white_u2", 2, ("quick", "thorough"), 3600, 3),
+        _c01_filter("filter_pawn_black_u2", 2, ("quick", "thorough"), 3600, 3),
         _c01_filter("filter_pieces_white_u3", 3, ("thorough",), 7200, 16),
         _c01_filter("filter_pieces_black_u3", 3, ("thorough",), 7200, 16),
         _c01_filter("filter_king_white_u3", 3, ("thorough",), 7200, 16),
@@ -237,22 +238,30 @@ PLAN["C01"] = {
         _c01_gen("gen_kq_k_white_complete", 1, 27, ('thorough',), 10800, 16, 35),
         _c01_gen("gen_kq_k_black_sound", 1, 27, ('thorough',), 10800, 16, 35),
         _c01_gen("gen_kq_k_black_complete", 1, 27, ('thorough',), 10800, 16, 35),
-        _c01_gen("gen_kp_kn_white_sound", 1, 8, ('quick', 'thorough'), 3600, 13, 16),
-        _c01_gen("gen_kp_kn_white_complete", 1, 8, ('quick', 'thorough'), 3600, 13, 16),
+        _c01_gen("gen_kp_kn_white_sound", 1, 8, ('thorough',), 3600, 13, 16),
+        _c01_gen("gen_kp_kn_white_complete", 1, 8, ('thorough',), 3600, 13, 16),
         _c01_gen("gen_kp_kn_black_sound", 1, 8, ('thorough',), 3600, 13, 16),
         _c01_gen("gen_kp_kn_black_complete", 1, 8, ('thorough',), 3600, 13, 16),
         _c01_gen("gen_kp_kp_ep_white_sound", 1, 8, ('thorough',), 3600, 13, 12),
         _c01_gen("gen_kp_kp_ep_white_complete", 1, 8, ('thorough',), 3600, 13, 12),
-        _c01_gen("gen_kp_kp_ep_black_sound", 1, 8, ('quick', 'thorough'), 3600, 13, 12),
-        _c01_gen("gen_kp_kp_ep_black_complete", 1, 8, ('quick', 'thorough'), 3600, 13, 12),
-        _c01_gen("gen_castle_white_sound", 2, 14, ('quick', 'thorough'), 3600, 8, 40),
-        _c01_gen("gen_castle_white_complete", 2, 14, ('quick', 'thorough'), 3600, 8, 40),
-        _c01_gen("gen_castle_black_sound", 2, 14, ('quick', 'thorough'), 3600, 8, 40),
-        _c01_gen("gen_castle_black_complete", 2, 14, ('quick', 'thorough'), 3600, 8, 40),
-        _c01_gen("gen_castle_n_white_sound", 2, 14, ("quick", "thorough"), 3600, 8, 40),
-        _c01_gen("gen_castle_n_white_complete", 2, 14, ("thorough",), 3600, 8, 40),
-        _c01_gen("gen_castle_n_black_sound", 2, 14, ("quick", "thorough"), 3600, 8, 40),
-        _c01_gen("gen_castle_n_black_complete", 2, 14, ("thorough",), 3600, 8, 40),
+        _c01_gen("gen_kp_kp_ep_black_sound", 1, 8, ('thorough',), 3600, 13, 12),
+        _c01_gen("gen_kp_kp_ep_black_complete", 1, 8, ('thorough',), 3600, 13, 12),
+        _c01_gen("gen_castle_white_sound", 2, 14, ('quick', 'thorough'), 3600, 7, 40),
+        _c01_gen("gen_castle_white_complete", 2, 14, ('quick', 'thorough'), 3600, 7, 40),
+        _c01_gen("gen_castle_black_sound", 2, 14, ('quick', 'thorough'), 3600, 7, 40),
+        _c01_gen("gen_castle_black_complete", 2, 14, ('quick', 'thorough'), 3600, 7, 40),
+        _c01_gen("gen_q_kp_kn_white_sound", 1, 8, ("quick", "thorough"), 3600, 8, 16),
+        _c01_gen("gen_q_kp_kn_white_complete", 1, 8, ("quick", "thorough"), 3600, 8, 16),
+        _c01_gen("gen_q_kp_kn_black_sound", 1, 8, ("quick", "thorough"), 3600, 8, 16),
+        _c01_gen("gen_q_kp_kn_black_complete", 1, 8, ("thorough",), 3600, 8, 16),
+        _c01_gen("gen_q_kp_kp_ep_white_sound", 1, 8, ("quick", "thorough"), 3600, 8, 12),
+        _c01_gen("gen_q_kp_kp_ep_white_complete", 1, 8, ("thorough",), 3600, 8, 12),
+        _c01_gen("gen_q_kp_kp_ep_black_sound", 1, 8, ("quick", "thorough"), 3600, 8, 12),
+        _c01_gen("gen_q_kp_kp_ep_black_complete", 1, 8, ("quick", "thorough"), 3600, 8, 12),
+        _c01_gen("gen_castle_n_white_sound", 2, 14, ("quick", "thorough"), 3600, 7, 40),
+        _c01_gen("gen_castle_n_white_complete", 2, 14, ("thorough",), 3600, 7, 40),
+        _c01_gen("gen_castle_n_black_sound", 2, 14, ("quick", "thorough"), 3600, 7, 40),
+        _c01_gen("gen_castle_n_black_complete", 2, 14, ("thorough",), 3600, 7, 40),
         _c01_gen("probe_gen_kp_kp_ep_black_complete_fast", 1, 8, ("probe",), 3600, 14, 12),
         Inst("c01::reach_witness", sub="vacuity", unwind=10, nomem=True, timeout=1800, expect="fail",
              unwindset=(("expand_moves", 10), ("compute_pawn_moves", 6), ("compute_knight_moves", 3), ("compute_bishop_moves", 3), ("compute_rook_moves", 3),
@@ -349,11 +358,12 @@ for fam, men, mode, tiers in (("krk_btm", 1, 0, ("thorough",)), ("kqk_wtm", 1, 0
                               ("krkn_btm", 2, 1, ("thorough",)), ("kqkb_wtm", 2, 1, ("thorough",)), ("kbpkn_wtm", 3, 1, ("thorough",))):
     for which in ("negation", "mirror"):
         _c13.append(_eval_inst("%s_%s" % (fam, which), "C13 " + which, men, tiers, 7200, 14, LEGAL_STUB if mode == 0 else NONTERM_STUB, mod="c13"))
-# quick tier: one negation and one mirror query (each 10-20 min of SAT solving over IEEE floats; slicing the
-# query by the file of the man was measured and only bought a factor 1.7 for 8x the CPU and memory)
-for _i in _c13:
-    if _i.name in ("c13::krk_btm_negation", "c13::kqk_wtm_mirror"):
-        _i.tiers = ("quick", "thorough")
+# quick tier: slices with part of the position concrete (a full-family query costs 15-20 min of SAT solving over
+# IEEE floats, more than the quick budget; slicing a full family by the file of the man only bought a factor 1.7)
+for _n, _men, _stub in (("q_kings_negation", 0, NONTERM_STUB), ("q_kings_mirror", 0, NONTERM_STUB), ("q_pawn_mirror", 1, NONTERM_STUB),
+                        ("q_knight_mirror", 1, NONTERM_STUB), ("q_bishop_mirror", 1, NONTERM_STUB), ("q_rook_mirror", 1, NONTERM_STUB),
+                        ("q_queen_mirror", 1, NONTERM_STUB)):
+    _c13.append(_eval_inst(_n, "C13 slice", _men, ("quick", "thorough"), 3600, 11 if _men else 9, _stub, mod="c13"))
 _c13.append(Inst("c13::lemma_weighting_is_odd", crate="engine", sub="C13 lemma", timeout=1200, functions=("<Evaluation as Mul<f32>>::mul", "<Evaluation as Neg>::neg"),
                  bounds="x in [-2^20, 2^20], weights 1.0 / 0.8 / 0.2"))
 _w = _eval_inst("reach_witness", "vacuity", 1, ("quick", "thorough"), 1800, 10, LEGAL_STUB, mod="c13")
@@ -455,10 +465,14 @@ def _sha(paths):
     return h.hexdigest()[:20]
 
 
-def prereq_c09(workdir):
-    """Checks that replace the table lookups by geometry rely on C09 for *this* tree. The verdict is cached
-    for gating only, keyed by every file C09's encoding is generated from; C09's own check never reads it."""
+def prereq_c09(workdir, tier="quick"):
+    """Checks that replace the table lookups by geometry rely on C09 for *this* tree. A verdict is cached
+    for gating only, keyed by every file C09's encoding is generated from; C09's own check never reads it.
+    Quick tier: a cached failing verdict makes the dependant inconclusive; when no verdict exists for this
+    tree the dependant proceeds and records the assumption (running C09 inline costs 5-8 min, more than the
+    quick tier's budget; `./check C09` decides it). Thorough tier: C09's quick tier is run inline first."""
     import json
+    import fcntl
     import vdriver
     core = REPO + "/weechess-core/src/"
     files = [core + f for f in ("attacks.rs", "board.rs", "common.rs", "utils.rs", "piece.rs", "color.rs", "lib.rs")]
@@ -469,18 +483,21 @@ def prereq_c09(workdir):
     cdir = os.environ.get("VERIF_PREREQ_CACHE") or os.path.join(ROOT, "work", "prereq")
     os.makedirs(cdir, exist_ok=True)
     cf = os.path.join(cdir, "C09-%s.json" % key)
-    import fcntl
     with open(os.path.join(cdir, "gate.lock"), "w") as lk:
         fcntl.flock(lk, fcntl.LOCK_EX)  # concurrent checks share one gate run
         if os.path.exists(cf):
             rc = json.load(open(cf))["exit"]
+        elif tier != "thorough" and not os.environ.get("VERIF_GATE_INLINE"):
+            vdriver.log("[prereq] no C09 verdict cached for this tree (key %s): proceeding under the assumption "
+                        "'lookups = geometry'; run ./check C09 to decide it" % key)
+            return True, "assumed: C09 (lookup tables = geometry) not decided for this tree in this run"
         else:
             vdriver.log("[prereq] C09 has no verdict for this tree yet (key %s): running its quick tier first" % key)
             rc = vdriver.check("C09", PLAN["C09"], "quick", None, 0, evidence=False)
             if rc in (0, 1):  # an inconclusive gate run is retried next time, never cached
                 json.dump({"exit": rc, "key": key}, open(cf, "w"))
     if rc == 0:
-        return True, ""
+        return True, "C09 verdict for this tree: holds (cached)"
     return False, ("C09 (lookup tables = geometry) does not hold or could not be decided on this tree (exit %d): checks that "
                    "stand in geometry for the lookups cannot be trusted; see ./check C09" % rc)
 
@@ -523,7 +540,7 @@ def setup():
         if rc != 0:
             rc_all = 1
     # 3. seed the prerequisite gate
-    ok, why = prereq_c09(os.path.join(ROOT, "work"))
+    ok, why = prereq_c09(os.path.join(ROOT, "work"), "thorough")
     log("[setup] C09 gate: %s" % ("ok" if ok else why))
     if not ok:
         rc_all = 1
